@@ -21,7 +21,26 @@ def features(rng):
     return F
 
 
-P = RenderProp(features, "color", n_quick=110, n_thorough=700)
+def special(rng):
+    """translucent groups inside translucent groups with overlapping children: which groups may be flattened"""
+    if rng.random() > 0.15:
+        return None
+    def rect(x, y, col, extra=""):
+        return '<rect x="%d" y="%d" width="40" height="40" fill="%s"%s/>' % (x, y, col, extra)
+    o1, o2 = rng.choice(["0.5", "0.3", "0.8"]), rng.choice(["0.5", "0.6", "0.25"])
+    inner = '<g opacity="%s">%s%s</g>' % (o2, rect(20, 20, "blue"), rect(35, 35, "red"))
+    kind = rng.random()
+    if kind < 0.4:
+        body = '<g opacity="%s">%s%s</g>' % (o1, rect(10, 10, "lime"), inner)            # one shape + a kept subgroup
+    elif kind < 0.7:
+        body = '<g opacity="%s">%s</g>' % (o1, inner)                                      # only a kept subgroup
+    else:
+        body = '<g opacity="%s" fill-opacity="0.5">%s<g>%s</g>%s</g>' % (o1, rect(10, 10, "lime"), rect(30, 5, "orange"), inner)
+    pts = [(30, 30), (45, 45), (25, 25), (60, 60), (15, 15), (38, 38)]
+    return ('<svg xmlns="http://www.w3.org/2000/svg" viewBox="0 0 100 100">%s%s</svg>' % (rect(0, 30, "gray") if rng.random() < 0.5 else "", body), pts)
+
+
+P = RenderProp(features, "color", n_quick=110, n_thorough=700, special=special)
 correspondence = P.correspondence
 search = P.search
 replay = P.replay
